@@ -231,9 +231,12 @@ def strtolTok (tok : Bytes) : Option Int :=
   match tok with
   | [] => none
   | c :: r =>
-    if c == 0x2D then (strtolDigits r).map (fun n => -(n : Int))
-    else if c == 0x2B then (strtolDigits r).map (fun n => (n : Int))
-    else (strtolDigits (c :: r)).map (fun n => (n : Int))
+    if c == 0x2D then
+      (match strtolDigits r with | some n => some (-(Int.ofNat n)) | none => none)
+    else if c == 0x2B then
+      (match strtolDigits r with | some n => some (Int.ofNat n) | none => none)
+    else
+      (match strtolDigits (c :: r) with | some n => some (Int.ofNat n) | none => none)
 
 /-- the conversion part of `parse_number` on the copied token (`buf`): `none` = `goto failed`.
 `sd` = `strtod` on the token: (bits, bytes consumed). -/
